@@ -130,3 +130,43 @@ pub fn u64_at(b: &[u8], o: usize) -> u64 {
 pub fn u16_at(b: &[u8], o: usize) -> u16 {
     u16::from_ne_bytes([b[o], b[o + 1]])
 }
+
+/// Model of UTF-8 well-formedness (Unicode Table 3-7), byte-wise state machine.
+pub fn utf8_valid(b: &[u8]) -> bool {
+    let n = b.len();
+    let mut i = 0;
+    while i < n {
+        let c = b[i];
+        if c < 0x80 {
+            i += 1;
+        } else if c >= 0xC2 && c <= 0xDF {
+            if i + 1 >= n || b[i + 1] & 0xC0 != 0x80 { return false; }
+            i += 2;
+        } else if c >= 0xE0 && c <= 0xEF {
+            if i + 2 >= n { return false; }
+            let (lo, hi) = if c == 0xE0 { (0xA0, 0xBF) } else if c == 0xED { (0x80, 0x9F) } else { (0x80, 0xBF) };
+            if b[i + 1] < lo || b[i + 1] > hi || b[i + 2] & 0xC0 != 0x80 { return false; }
+            i += 3;
+        } else if c >= 0xF0 && c <= 0xF4 {
+            if i + 3 >= n { return false; }
+            let (lo, hi) = if c == 0xF0 { (0x90, 0xBF) } else if c == 0xF4 { (0x80, 0x8F) } else { (0x80, 0xBF) };
+            if b[i + 1] < lo || b[i + 1] > hi || b[i + 2] & 0xC0 != 0x80 || b[i + 3] & 0xC0 != 0x80 { return false; }
+            i += 4;
+        } else {
+            return false;
+        }
+    }
+    true
+}
+
+/// Stub for `core::str::from_utf8` (std's validator with its word-at-a-time
+/// ASCII fast path does not fit in CBMC's memory on symbolic bytes).  Same
+/// contract: Ok(the same bytes as str) iff the bytes are well-formed UTF-8.
+/// The error value is a zeroed `Utf8Error` (its fields are not the subject).
+pub fn from_utf8_stub(v: &[u8]) -> Result<&str, core::str::Utf8Error> {
+    if utf8_valid(v) {
+        Ok(unsafe { core::str::from_utf8_unchecked(v) })
+    } else {
+        Err(unsafe { core::mem::MaybeUninit::<core::str::Utf8Error>::zeroed().assume_init() })
+    }
+}
